@@ -10,8 +10,34 @@ fn rel_close_at(g: &[f64], e: &[f64], bits: i32, unit: f64) -> bool {
     g.len() == e.len() && g.iter().zip(e).all(|(a, b)| a.is_finite() && (a - b).abs() <= 2f64.powi(-bits) * b.abs().max(unit))
 }
 
+/// every way of arriving at a hyper-parameter setting gives the optimizer `new` gives: Adam's default is the published one
+/// (alpha 0.001, beta1 0.9, beta2 0.999, epsilon 1e-8), `with_stepsize` changes the step size only, `set_stepsize` equals
+/// construction with that step size. Judged on an objective whose gradients are of the order of epsilon itself.
+fn configuration_entry_points(v: &mut Verdicts) {
+    fn obj<'a>(p: &[Var<'a>], _d: &[&[f64]]) -> Var<'a> { let mut s = p[0] * p[0] * 3e-8; for i in 1..p.len() { s = s + p[i] * p[i] * (i as f64 * 2e-9) + p[i] * 1e-8; } s }
+    let x0 = [1.0, -2.0, 0.5];
+    let same = |a: &Option<Vec<f64>>, b: &Option<Vec<f64>>| match (a, b) { (Some(a), Some(b)) => a.iter().zip(b).all(|(x, y)| x.to_bits() == y.to_bits()), _ => false };
+    for k in [1usize, 4, 25] {
+        let reference = |s: f64| guard(|| Adam::new(s, 0.9, 0.999, 1e-8).optimize(obj, &x0, &[], k).to_vec());
+        let d = guard(|| Adam::default().optimize(obj, &x0, &[], k).to_vec());
+        v.check(same(&d, &reference(0.001)), "configuration", "Adam::default = published defaults", &json!({"k": k}), json!(d.as_ref().map(|g| fjs(g))));
+        for s in [0.05, 1e-4] {
+            let w = guard(|| Adam::with_stepsize(s).optimize(obj, &x0, &[], k).to_vec());
+            v.check(same(&w, &reference(s)), "configuration", "Adam::with_stepsize = new(s, defaults)", &json!({"k": k, "stepsize": s}), json!(w.as_ref().map(|g| fjs(g))));
+            let t = guard(|| { let mut a = Adam::new(0.3, 0.9, 0.999, 1e-8); a.optimize(obj, &x0, &[], 2); a.set_stepsize(s); a.optimize(obj, &x0, &[], k).to_vec() });
+            v.check(same(&t, &reference(s)), "configuration", "Adam::set_stepsize = new(s, ..)", &json!({"k": k, "stepsize": s}), json!(t.as_ref().map(|g| fjs(g))));
+            for (mu, nes) in [(0.0, false), (0.9, false), (0.5, true)] {
+                let r = guard(|| SGD::new(s * 1e6, mu, nes).optimize(obj, &x0, &[], k).to_vec());
+                let t = guard(|| { let mut a = SGD::new(7.0, mu, nes); a.optimize(obj, &x0, &[], 2); a.set_stepsize(s * 1e6); a.optimize(obj, &x0, &[], k).to_vec() });
+                v.check(same(&t, &r), "configuration", "SGD::set_stepsize = new(s, ..)", &json!({"k": k, "stepsize": s * 1e6, "momentum": mu, "nesterov": nes}), json!(t.as_ref().map(|g| fjs(g))));
+            }
+        }
+    }
+}
+
 pub fn replay(cases: &str, verdicts: &str) {
     let mut v = Verdicts::new(verdicts, "C10");
+    if cases.contains("MC_Optim_") { configuration_entry_points(&mut v); }
     for_each_line(cases, |c| {
         v.cases += 1;
         if v.cases % 60 == 1 { v.sample(c.clone()); }
@@ -21,10 +47,13 @@ pub fn replay(cases: &str, verdicts: &str) {
         let horizon = c["horizon"].as_u64().unwrap() as usize;
       // scale equivariance (Inv_ScaleEquivariant): start, linear terms / kinks and (Adam) step size multiplied by a power of
       // two move every iterate by that factor; replayed at 2^-130 and 2^90 for every third case
-      for sc_log2 in [0i32, -130, 90] {
+      // (2^600, SGD only: the iterates are representable, the value of the quadratic objective is not - the recurrence is driven by
+      // gradients, which stay finite)
+      for sc_log2 in [0i32, -130, 90, 600] {
         if sc_log2 != 0 && v.cases % 3 != 0 { continue; }
+        if sc_log2 == 600 && cfg["opt"].as_str() != Some("sgd") { continue; }
         let sc = 2f64.powi(sc_log2);
-        let scl = if sc_log2 == 0 { "" } else if sc_log2 < 0 { " tiny-scale" } else { " huge-scale" };
+        let scl = if sc_log2 == 0 { "" } else if sc_log2 < 0 { " tiny-scale" } else if sc_log2 == 600 { " objective-overflows" } else { " huge-scale" };
         let mut exp: Vec<f64> = f64s(&c["x"]).iter().map(|t| t * sc).collect();
         let mut x0: Vec<f64> = f64s(&cfg["x0"]).iter().map(|t| t * sc).collect();
         // an inert coordinate (no gradient ever) is put at a magnitude far beyond the others: it must stay, the others must move
